@@ -15,7 +15,8 @@ the theorems of Props/C04, and whether the guard `envPlain` of C04_order holds a
 A case with "method": "tree" is a HISTORY ON A PARSER TREE:
   {"method": "tree", "parser": ROOT PARSER (default_env / os_default_env: construction time), "shape": {"flag": BOOL, "subs": [[NAME, SHAPE]…]},
    "setters": [[[NAME…], STR|null, BOOL]…]  (path of the parser whose `default_env` is assigned, JSONARGPARSE_DEFAULT_ENV then, value),
-   "path": [NAME…] (chosen subcommands), "levels": [{"name": NAME, "parser": {"args": […]}, "argv": […]}…] (below the root, in order),
+   "path": [NAME…] (chosen subcommands), "levels": [{"name": NAME, "parser": {"args": […]}, "argv": […], "on_argv": BOOL?, "env_sub": BOOL?}…] (below the root, in order;
+   on_argv: named on the command line; env_sub: the parser's subcommand variable names the next level), "env_sub": BOOL? (the root's),
    "argv": root's items, "env": …, "call": …}
 Output: {"levels": [VAL…], "flags": [BOOL…], "ok": BOOL, "ref": [VAL…], "domain": BOOL, "uniform": BOOL, "guard": BOOL}: the namespace of every
 level of the path (model), the flags the model's setter leaves along the path, and the per-level reference fold with the
@@ -236,8 +237,14 @@ def runTree (j : Json) : Except String Json := do
     let name ← (← l.getObjVal? "name").getStr?
     let p ← parserOfJson (← l.getObjVal? "parser")
     let argv ← (arrOf l "argv").mapM itemOfJson
-    pure ({ name := name, p := p, src := { files := [], env := env, argv := argv } } : Level))
-  let root : Level := { name := "", p := p0, src := { files := [], env := env, argv := argv0 } }
+    let flag := fun (k : String) (dflt : Bool) => match l.getObjVal? k with
+      | .ok (.bool b) => b
+      | _ => dflt
+    pure ({ name := name, p := p, src := { files := [], env := env, argv := argv }, onArgv := flag "on_argv" true, envSub := flag "env_sub" false } : Level))
+  let rootEnvSub := match j.getObjVal? "env_sub" with
+    | .ok (.bool b) => b
+    | _ => false
+  let root : Level := { name := "", p := p0, src := { files := [], env := env, argv := argv0 }, envSub := rootEnvSub }
   let lv := root :: chainPrefixes p0 below
   let tree := runSetters setters (build p0.osDefaultEnv p0.defaultEnv shape)
   let flags := flagsOn path tree
